@@ -152,13 +152,20 @@ def build_templates(model, style=0, share_nodes=True, prefix=""):
         node_tpls[key] = tpl
         nodes[label] = tpl
     edges = []
+    edge_tpls = {}
+    if model.get("edge_ops"):
+        from pyrates import EdgeTemplate
+        for name, op in model["edge_ops"].items():
+            eqs = [eq_str(l, k, t, style) for l, k, t in op["eqs"]]
+            variables = {v: var_decl(vt, d) for v, (vt, d) in op["vars"].items()}
+            edge_tpls[name] = EdgeTemplate(name=f"{prefix}et_{name}", operators=[OperatorTemplate(name=name, equations=eqs, variables=variables, path=None)], path=None)
     for e in model.get("edges", []):
         attrs = {"weight": e["w"]}
         if e.get("d") is not None:
             attrs["delay"] = e["d"]
         if e.get("s") is not None:
             attrs["spread"] = e["s"]
-        edges.append((e["src"], e["tgt"], None, attrs))
+        edges.append((e["src"], e["tgt"], edge_tpls.get(e.get("tpl")), attrs))
     circuits = {lab: build_templates(sub, style, share_nodes, prefix=f"{prefix}{lab}_")
                 for lab, sub in model.get("circuits", {}).items()}
     kw = dict(name=f"{prefix}net", edges=edges)
@@ -178,6 +185,8 @@ def flatten(model, prefix=""):
     for e in model.get("edges", []):
         e2 = dict(e)
         e2["src"], e2["tgt"] = prefix + e["src"], prefix + e["tgt"]
+        if e.get("tpl"):
+            e2["_op"] = model["edge_ops"][e["tpl"]]
         edges.append(e2)
     for lab, sub in model.get("circuits", {}).items():
         n2, e2 = flatten(sub, prefix + lab + "/")
@@ -279,13 +288,23 @@ def spec_rhs(model, y, params=None, hist=None, t=0.0, edge_now=None):
                 for e in incoming.get(path, []):
                     if not alg_ready(e["src"]):
                         ok = False
-                    terms.append(("edge", e["src"], e["w"], e if edge_now is not None else e.get("d")))
+                    terms.append(("edge", e["src"], e["w"], e if (edge_now is not None or e.get("_op")) else e.get("d")))
                 if not ok:
                     break
                 if terms:
                     tot = 0.0
                     for kind_, src, w, d in terms:
-                        if kind_ == "edge" and edge_now is not None:
+                        if kind_ == "edge" and isinstance(d, dict) and d.get("_op"):
+                            # edge template: the (algebraic) edge operator is evaluated per edge on its own source
+                            eop = d["_op"]
+                            sv = edge_now(src, d, val_of) if edge_now is not None else val_of(src)
+                            eenv = {v_: (sv if vt_ == "input" else dflt) for v_, (vt_, dflt) in eop["vars"].items()}
+                            outv = None
+                            for l_, k_, tr_ in eop["eqs"]:
+                                eenv[l_] = ev(tr_, eenv)
+                                outv = eenv[l_]
+                            tot = tot + w * outv
+                        elif kind_ == "edge" and edge_now is not None:
                             tot = tot + w * edge_now(src, d, val_of)
                         elif d is not None and hist is not None:
                             tot = tot + w * hist(t - d, src)
